@@ -50,6 +50,11 @@ def gen_resource(rng):
     a.setdefault('synsets', [])[0].setdefault('relations', []).append({'target': a['synsets'][-1]['id'], 'relType': 'brand_new_reltype', 'meta': None})
     a['synsets'][0]['lexfile'] = 'brand.new.lexfile'
     b = g.lexicon('b', '1', v, n_syn=2, n_ent=2)
+    # a lexicon-level frame that lists one sense itself and is referred to by another sense's subcat
+    senses_ = [s_ for e in a['entries'] for s_ in e.get('senses', [])]
+    if len(senses_) >= 2:
+        a.setdefault('frames', []).append({'id': 'a-sbx', 'subcategorizationFrame': 'frame with senses attribute', 'senses': [senses_[0]['id']]})
+        senses_[1].setdefault('subcat', []).append('a-sbx')
     ext = g.extension('px', pre, '1', v)
     main = [a, b]
     if rng.random() < 0.5:
@@ -201,6 +206,41 @@ def _impl(args):
                 raised = 'other:' + type(e).__name__
             check_after_fault('callback', k, raised, {'K': K, 'exception': EXC_TYPES[k % 4].__name__})
 
+        # (1b) the same, the resource supplied in memory: after the failure the caller adds the very same object again
+        from wn import lmf as _lmf
+        for k in ([k_ for k_ in ks if k_ % 7 == 3][:4] or ks[:1]):
+            restore()
+            r_mem = _lmf.load(files['main'], progress_handler=None)
+
+            class BombM(ProgressHandler):
+                n = 0
+
+                def update(self, n=1, force=False):
+                    BombM.n += 1
+                    if BombM.n == k:
+                        raise Boom(f'callback {k}')
+
+                def flash(self, message):
+                    BombM.n += 1
+                    if BombM.n == k:
+                        raise Boom(f'callback {k}')
+            raised = False
+            try:
+                wn.add_lexical_resource(r_mem, progress_handler=BombM)
+            except Boom:
+                raised = True
+            except Exception as e:
+                raised = 'other:' + type(e).__name__
+            rec = {'kind': 'callback(in-memory resource)', 'pos': k, 'raised': raised, 'K': K}
+            after = dump(wn._db.connect())
+            rec['changed_tables'] = {t: [len(pre_dump[t]), len(after[t])] for t in TABLES if pre_dump[t] != after[t]}
+            try:
+                wn.add_lexical_resource(r_mem, progress_handler=None)
+                rec['followup'] = 'ok' if store.canon_obs(store.obs_all(wn)) == ok_obs else 'different-observation(after adding the same in-memory resource again)'
+            except Exception as e:
+                rec['followup'] = 'error:' + type(e).__name__ + ':' + str(e)[:80]
+            results.append(rec)
+
         # (2) one corrupted reference at every position
         for kind, pos in corruptions(sc['main'], rng, 12 if quick else 200):
             restore()
@@ -278,8 +318,16 @@ def _impl(args):
             wnenv.close_pool()
             shutil.copy(snap2, dbfile)
 
-            class BombR(ProgressHandler):
+            # half of the handlers derive from the library's own ProgressBar (what callers customise), silenced
+            from wn.util import ProgressBar as _PB
+            _base = _PB if k % 2 == 0 else ProgressHandler
+
+            class BombR(_base):
                 n = 0
+
+                def __init__(self, *a, **kw):
+                    kw['file'] = None
+                    super().__init__(*a, **kw)
 
                 # fails at callback k and at every later one (a handler whose resources are gone)
                 def update(self, n=1, force=False):
